@@ -59,7 +59,12 @@ def expansions(trip):
 def run_shard(shard):
     res = ShardResult()
     part = shard["part"]
-    getattr(__import__(__name__, fromlist=["x"]), "part_" + part.rstrip("0123"))(res, part)
+    fn = getattr(__import__(__name__, fromlist=["x"]), "part_" + part.rstrip("0123"))
+    fn(res, part)
+    # second pass in the same process: the tables are process-wide objects; a question that edits them (in-place removal
+    # from a shared list, a memo keyed too coarsely) answers correctly once and wrongly afterwards
+    fn(res, part)
+    res.extra["passes"] += 2
     return res
 
 
